@@ -217,3 +217,47 @@ func H_C13_Limits() {
 		nd.Assert(errors.Is(err, base64.ErrStringTooLarge) == (d > 0), "b64/decode-limit-exact")
 	}
 }
+
+// H_C13_NoPadAndSafe: the unpadded base32 decoder accepts only alphabet characters (no '='), and every size-guarded variant agrees with its plain counterpart on non-empty inputs within the limit (strings of 1..4 arbitrary bytes incl. CR/LF, and 8 bytes without CR/LF).
+//
+//verif:props C13 C04
+//verif:witness accepted rejected
+func H_C13_NoPadAndSafe() {
+	var s string
+	if nd.Bool() {
+		s = nd.String(nd.IntRange(1, 4))
+	} else {
+		s = nd.String(8)
+		for i := 0; i < len(s); i++ {
+			nd.Assume(s[i] != '\r' && s[i] != '\n')
+		}
+	}
+	a, aerr := base32.DecodeStringNoPadding(s)
+	b, berr := base32.DecodeStringSafeNoPadding(s)
+	nd.Assert((aerr == nil) == (berr == nil), "b32/nopad-safe-agrees-on-acceptance")
+	if aerr == nil && berr == nil {
+		nd.Assert(bytes.Equal(a, b), "b32/nopad-safe-agrees-on-result")
+	}
+	if aerr == nil {
+		nd.Cover("accepted")
+		for i := 0; i < len(s); i++ {
+			nd.Assert(nd.Or(nd.Or(s[i] == '\r', s[i] == '\n'), inAlpha(s[i], alpha32)), "b32/nopad-only-i2p-alphabet-accepted")
+		}
+	} else {
+		nd.Cover("rejected")
+	}
+	c, cerr := base32.DecodeString(s)
+	d, derr := base32.DecodeStringSafe(s)
+	nd.Assert((cerr == nil) == (derr == nil), "b32/safe-agrees-on-acceptance")
+	if cerr == nil && derr == nil {
+		nd.Assert(bytes.Equal(c, d), "b32/safe-agrees-on-result")
+	}
+	if len(s) <= 4 {
+		e, eerr := base64.DecodeString(s)
+		f, ferr := base64.DecodeStringSafe(s)
+		nd.Assert((eerr == nil) == (ferr == nil), "b64/safe-agrees-on-acceptance")
+		if eerr == nil && ferr == nil {
+			nd.Assert(bytes.Equal(e, f), "b64/safe-agrees-on-result")
+		}
+	}
+}
